@@ -45,7 +45,7 @@ Exists(id) == id # "missing"
 
 \* ---- statements: what they name and what they mean over a sequence of lines ----
 \*   all     SELECT x FROM t                      count   SELECT COUNT(*) AS n FROM t
-\*   limit1  SELECT x FROM t LIMIT 1              from    SELECT x FROM t::'<fc>'      frommissing  ... t::'<missing>'
+\*   limit1  SELECT x FROM t LIMIT 1   (limit2: LIMIT 2)      from    SELECT x FROM t::'<fc>'      frommissing  ... t::'<missing>'
 \*   parsebad  SELEC x FROM t                     notable SELECT x FROM nosuch         create  CREATE TABLE w(...)
 \*   second  SELECT y FROM u   (a second table of the definition file: first character of each non-empty line)
 FromOf(q) == CASE q = "from" -> "fc" [] q = "frommissing" -> "missing" [] OTHER -> "none"
@@ -53,14 +53,16 @@ ColOf(q) == CASE q = "count" -> <<110>> [] q = "second" -> <<121>> [] OTHER -> <
 Rows(q, lines) ==
   CASE q = "count" -> IF lines = <<>> THEN <<>> ELSE <<<<IntV(Len(lines))>>>>
     [] q = "limit1" -> IF lines = <<>> THEN <<>> ELSE <<<<lines[1]>>>>
+    [] q = "limit2" -> [i \in 1..(IF Len(lines) < 2 THEN Len(lines) ELSE 2) |-> <<lines[i]>>]
     [] q = "second" -> [i \in 1..Len(lines) |-> <<TextV(<<lines[i].s[1]>>)>>]
     [] OTHER -> [i \in 1..Len(lines) |-> <<lines[i]>>]
-Consumed(q, lines) == IF q = "limit1" /\ lines # <<>> THEN 1 ELSE Len(lines)          \* LIMIT stops reading (C07)
+Consumed(q, lines) == IF q = "limit1" /\ lines # <<>> THEN 1 ELSE IF q = "limit2" /\ Len(lines) >= 2 THEN 2 ELSE Len(lines)          \* LIMIT stops reading (C07)
 
 VARIABLES files, query, defs, format, usestdin, stats, cmdsrc,     \* the environment's choices
+          follow,            \* -f --head: FollowFileExecutor on the FIRST chosen file only, from its first byte; ends when LIMIT is reached
           pc, chosen, out, exit
 
-cvars == <<files, query, defs, format, usestdin, stats, cmdsrc>>
+cvars == <<files, query, defs, format, usestdin, stats, cmdsrc, follow>>
 vars == <<cvars, pc, chosen, out, exit>>
 
 Msg(m) == [k |-> "msg", m |-> m, row |-> <<>>, n |-> 0]
@@ -76,6 +78,10 @@ Init ==
   /\ query \in Queries /\ defs \in DefKinds /\ format \in Formats
   /\ usestdin \in BOOLEAN /\ stats \in BOOLEAN /\ cmdsrc \in {"c", "file"}
   /\ (stats => ~usestdin)                       \* keep the product small: the two flags are independent in the code
+  /\ follow \in BOOLEAN
+  \* a followed file is never "finished": only runs that end by themselves are modelled -- a LIMIT that the first file can satisfy
+  /\ follow => /\ query \in {"limit1", "limit2"} /\ ~usestdin /\ ~stats /\ defs \in {"ok", "two"}
+               /\ files # <<>> /\ Len(Content(files[1])) >= (IF query = "limit1" THEN 1 ELSE 2)
   /\ pc = "defs" /\ chosen = <<>> /\ out = <<>> /\ exit = 0
 
 LoadDefs ==
@@ -105,7 +111,9 @@ OpenFiles ==
      ELSE /\ pc' = "exec" /\ UNCHANGED out
   /\ UNCHANGED <<cvars, chosen, exit>>
 
-AllLines == LET RECURSIVE cat(_) cat(i) == IF i = 0 THEN <<>> ELSE cat(i - 1) \o Content(chosen[i]) IN cat(Len(chosen))
+\* every chosen file is opened (OpenFiles), but follow mode then reads the first one only
+Used == IF follow THEN <<chosen[1]>> ELSE chosen
+AllLines == LET RECURSIVE cat(_) cat(i) == IF i = 0 THEN <<>> ELSE cat(i - 1) \o Content(Used[i]) IN cat(Len(Used))
 TableKnown == CASE query = "notable" -> FALSE [] query = "second" -> defs = "two" [] OTHER -> defs \in {"ok", "two"}
 
 Execute ==
